@@ -58,7 +58,7 @@ def race_signature(report):
         for line in block.splitlines():
             line = line.strip()
             if line.startswith("github.com/jilio/ebu") or line.startswith("simshim/simsync"):
-                name = line.split("(")[0]
+                name = line[:-2] if line.endswith("()") else line
                 funcs.append(name.rsplit("/", 1)[-1])
                 break
     return "race:" + "|".join(sorted(funcs))
